@@ -148,6 +148,15 @@ def triggered (renv : REnv) (s : Machine.St) (b : UInt8) : Option (List Frame) :
     | _, _ => none
   else none
 
+/-- `.map_err(de::Error::custom)`: the failure `o` of the nested parse of `txt` as the enclosing parse reports it — the
+    same message, category `Data`, at the line and column INSIDE `txt` (an error that already went through `custom` further
+    in keeps its position) -/
+def escalate (txt : Bytes) : Outcome → Outcome
+  | .ok v => .ok v
+  | .err c k => .custom (.code c) (lineCol txt k).1 (lineCol txt k).2
+  | .data e k => .custom (.invalidType e) (lineCol txt k).1 (lineCol txt k).2
+  | .custom m l c => .custom m l c
+
 /-- `crate::from_str(value.get()).map_err(de::Error::custom)`: `o` is the outcome of the nested parse of `txt` -/
 def nestedResult (txt : Bytes) (fs : List Frame) (o : Outcome) : Step :=
   match o with
